@@ -197,10 +197,10 @@ func realiseComments(model map[string]interface{}) []string {
 		}
 	}
 	return append(eof,
-		"package cand\n\nfunc gsxF() {}\n\n" + strings.TrimRight(top.String(), "\n"), // the file ends with the comment group, no final newline
-		"package cand\n\n" + top.String() + "func gsxF() {}\n",
-		"package cand\n\nfunc gsxF() {\n" + local.String() + "}\n",
-		"package cand\n\nfunc gsxF() {\n\t_ = 1\n" + local.String() + "\t_ = 2\n}\n",
+		"package cand\n\nfunc gsxF() {}\n\n"+strings.TrimRight(top.String(), "\n"), // the file ends with the comment group, no final newline
+		"package cand\n\n"+top.String()+"func gsxF() {}\n",
+		"package cand\n\nfunc gsxF() {\n"+local.String()+"}\n",
+		"package cand\n\nfunc gsxF() {\n\t_ = 1\n"+local.String()+"\t_ = 2\n}\n",
 	)
 }
 
